@@ -126,6 +126,8 @@ class Checker:
                 in_deg_nodes.add(key_node_id)
                 adj_lst[cur].append(key_node_id)
 
+        if self.model.start_id is None:
+            raise LvsModelError("LVS model has no start node id")
         dfs(self.model.start_id, None)
         top_order(nodes_id_lst, adj_lst)
         self._trust_roots = {
